@@ -166,7 +166,7 @@ def main(argv):
             trusted["%s:%s" % (u, k)] = v
         for c in tagged[:3]:
             samples.append({"obligation": c["name"], "tags": c["tags"], "clause": c["text"][:300], "status": "FAILED" if c["name"] in failed_names else "discharged"})
-        units_ev.append({"unit": u, "template": reg["units"][u], "verified_functions": out["res"]["json"]["verification-results"]["verified"] if out["res"]["json"] else None,
+        units_ev.append({"unit": u, "template": reg["units"][u], "verified_functions": (out["res"]["json"] or {}).get("verification-results", {}).get("verified"),
                          "clauses_total": len(asm.clauses), "clauses_tagged": len(tagged), "body_obligation_sites": sum(f["panic_sites"] for f in body_fns),
                          "canary": out["canary"], "wall_s": round(out["res"]["wall_s"], 2)})
 
@@ -256,8 +256,15 @@ def main(argv):
     if infra:
         rc = 2
     replay_paths = []
+    # a violation needs an engine that ran cleanly: a failed Kani check (counterexample on the real code), type or build
+    # probe stands even if the Verus side of this property is undecided (unsupported construct, lost anchor, rlimit)
+    kani_clean = not any(x.startswith("[kani]") for x in infra)
+    solid = [e for e in new_viol if (e.get("engine") == "kani/cbmc" and kani_clean) or e.get("engine") in ("rustc trait solver", "rustc")]
     if new_viol and not infra:
         rc = 1
+    elif solid:
+        rc = 1
+        new_viol = solid
     # evidence
     level = pr["level"]
     cov = {
